@@ -278,6 +278,7 @@ func runC04(c *Ctx) {
 		}
 		checkMainBucketDeletes(c, "C04-R5")
 		checkStripperCoversRowKinds(c, "C04-R5")
+		checkConversionSuccessMeansStripped(c, "C04-R5")
 		checkInitAccountsConversion(c, "C04-R5")
 		// every success path passes the per-scope walk; row rewrites are checked by the row-rewrite rule (nil private slot)
 		checkRowRewrites(c, "C04-R5")
